@@ -151,6 +151,14 @@ class CharacterConstant(Token):
     Represents a character constant.
     """
 
+    def sanitized_str(self):
+        """
+        Return this character constant quoted for stringification:
+        with its quotes, each backslash and double quote escaped.
+        """
+        value = self.token.replace("\\", "\\\\").replace('"', '\\"')
+        return f"'{value}'"
+
 
 @dataclass
 class NumericalConstant(Token):
@@ -399,10 +407,12 @@ class Lexer:
     def stringify(tokens):
         """
         Return a tokenized string version of an input series of tokens.
+        White space before the first token is deleted, and white space
+        between tokens becomes a single space (C11 6.10.3.2p2).
         """
         parts = ['"']
-        for p in tokens:
-            if p.prev_white:
+        for i, p in enumerate(tokens):
+            if p.prev_white and i > 0:
                 parts.append(" ")
             parts.append(p.sanitized_str())
         parts.append('"')
@@ -1658,6 +1668,7 @@ class MacroFunction(Macro):
                     placemarker = len(toadd) == 0
                     last_cat = True
                 elif tok.token == "#":
+                    hash_white = tok.prev_white
                     idx += 1
                     if idx == len(self.replacement):
                         raise ParseError(
@@ -1672,7 +1683,7 @@ class MacroFunction(Macro):
                             "# was not followed by a macro argument.",
                         )
                     tok = Lexer.stringify(tok)
-                    tok.prev_white = tok.prev_white
+                    tok.prev_white = hash_white
                     last_cat = True
                     placemarker = False
                     res_tokens.append((tok, True))
@@ -1954,13 +1965,24 @@ class MacroExpander:
                     args = []
                     current_arg = []
                     open_paren_count = 1
+                    # The trailing arguments of a variadic macro, including
+                    # the commas that separate them, form a single argument
+                    # (C11 6.10.3p12): no comma separates after max_commas.
+                    max_commas = None
+                    if macro_lookup.variadic:
+                        max_commas = len(macro_lookup.args) - 1
 
                     while True:
                         tok = self.consume_tok()
                         # Only punctuators separate and delimit arguments:
                         # the content of a literal ("," or '(') does not.
                         delim = isinstance(tok, (Punctuator, Operator))
-                        if delim and tok.token == "," and open_paren_count == 1:
+                        if (
+                            delim
+                            and tok.token == ","
+                            and open_paren_count == 1
+                            and (max_commas is None or len(args) < max_commas)
+                        ):
                             args.append(current_arg)
                             current_arg = []
                             continue
